@@ -18,6 +18,9 @@ type CharSet struct {
 	sub        *CharSet //optional subtractor
 	negate     bool
 	anything   bool
+	// canonNegated is set when canonicalize (not the pattern) put the set into its
+	// negated single-range form; the set must be restored before it is added to.
+	canonNegated bool
 
 	ascii *asciiBitmap
 }
@@ -169,8 +172,9 @@ func getCharSetFromOldString(setText []rune, negate bool) func() *CharSet {
 // Copy makes a deep copy to prevent accidental mutation of a set
 func (c CharSet) Copy() CharSet {
 	ret := CharSet{
-		anything: c.anything,
-		negate:   c.negate,
+		anything:     c.anything,
+		negate:       c.negate,
+		canonNegated: c.canonNegated,
 	}
 
 	ret.ranges = append(ret.ranges, c.ranges...)
@@ -567,6 +571,11 @@ func (c *CharSet) addSet(set CharSet) {
 		c.makeAnything()
 		return
 	}
+	c.undoCanonicalNegation()
+	if set.canonNegated {
+		set = set.Copy()
+		set.undoCanonicalNegation()
+	}
 	// just append here to prevent double-canon
 	c.ranges = append(c.ranges, set.ranges...)
 	c.addCategories(set.categories...)
@@ -575,6 +584,8 @@ func (c *CharSet) addSet(set CharSet) {
 
 func (c *CharSet) makeAnything() {
 	c.anything = true
+	c.negate = c.negate && !c.canonNegated
+	c.canonNegated = false
 	c.categories = []Category{}
 	c.ranges = []SingleRange{{First: 0, Last: unicode.MaxRune}}
 }
@@ -586,6 +597,7 @@ func (c *CharSet) addCategories(cats ...Category) {
 		// just return, we're as broad as we can get
 		return
 	}
+	c.undoCanonicalNegation()
 
 	for _, ct := range cats {
 		found := false
@@ -613,6 +625,7 @@ func (c *CharSet) addRanges(ranges []SingleRange) {
 	if c.anything {
 		return
 	}
+	c.undoCanonicalNegation()
 	c.ranges = append(c.ranges, ranges...)
 	c.canonicalize()
 }
@@ -622,6 +635,7 @@ func (c *CharSet) addNegativeRanges(ranges []SingleRange) {
 	if c.anything {
 		return
 	}
+	c.undoCanonicalNegation()
 
 	var hi rune
 
@@ -717,6 +731,7 @@ func (c *CharSet) addCaseEquivalences() {
 	if c.anything {
 		return
 	}
+	c.undoCanonicalNegation()
 	rangeCount := len(c.ranges)
 	for i := 0; i < rangeCount; i++ {
 		r := c.ranges[i]
@@ -755,6 +770,7 @@ func (c *CharSet) addSubtraction(sub *CharSet) {
 }
 
 func (c *CharSet) addRange(chMin, chMax rune) {
+	c.undoCanonicalNegation()
 	c.ranges = append(c.ranges, SingleRange{First: chMin, Last: chMax})
 	c.canonicalize()
 }
@@ -813,6 +829,29 @@ func (p singleRangeSorter) Less(i, j int) bool { return p[i].First < p[j].First 
 func (p singleRangeSorter) Swap(i, j int)      { p[i], p[j] = p[j], p[i] }
 
 // Logic to reduce a character class to a unique, sorted form.
+// undoCanonicalNegation restores the positive form of a set that canonicalize
+// inverted, so that further members are added to the set itself rather than
+// to its complement. canonicalize inverts it again once the result allows it.
+func (c *CharSet) undoCanonicalNegation() {
+	if !c.canonNegated {
+		return
+	}
+	c.canonNegated = false
+	c.negate = false
+	var ranges []SingleRange
+	prev := rune(0)
+	for _, r := range c.ranges {
+		if r.First > prev {
+			ranges = append(ranges, SingleRange{prev, r.First - 1})
+		}
+		prev = r.Last + 1
+	}
+	if prev <= unicode.MaxRune {
+		ranges = append(ranges, SingleRange{prev, unicode.MaxRune})
+	}
+	c.ranges = ranges
+}
+
 func (c *CharSet) canonicalize() {
 	var i, j int
 	var last rune
@@ -875,6 +914,7 @@ func (c *CharSet) canonicalize() {
 				c.ranges[0].Last < c.ranges[1].First-1 {
 				c.ranges = []SingleRange{{c.ranges[0].Last + 1, c.ranges[1].First - 1}}
 				c.negate = true
+				c.canonNegated = true
 			}
 		} else if len(c.ranges) == 1 {
 			switch c.ranges[0].First {
@@ -883,12 +923,14 @@ func (c *CharSet) canonicalize() {
 				if c.ranges[0].Last == unicode.MaxRune-1 {
 					c.ranges[0] = SingleRange{unicode.MaxRune, unicode.MaxRune}
 					c.negate = true
+					c.canonNegated = true
 				}
 			case 1:
 				// Or everything but the first char?
 				if c.ranges[0].Last >= unicode.MaxRune {
 					c.ranges[0] = SingleRange{'\x00', '\x00'}
 					c.negate = true
+					c.canonNegated = true
 				}
 			}
 		}
@@ -919,6 +961,7 @@ func (c *CharSet) canonicalize() {
 			c.makeAnything()
 		} else {
 			c.negate = true
+			c.canonNegated = true
 			c.ranges = []SingleRange{{c.ranges[0].Last + 1, c.ranges[0].Last + 1}}
 			c.categories = []Category{}
 		}
@@ -931,6 +974,7 @@ func (c *CharSet) addLowercase() {
 	if c.anything {
 		return
 	}
+	c.undoCanonicalNegation()
 	toAdd := []SingleRange{}
 	for i := 0; i < len(c.ranges); i++ {
 		r := c.ranges[i]
